@@ -80,7 +80,11 @@ class Harness:
 
 EVENTS = ["ac0-change", "ac0-repeat", "zone0-change", "zone0-repeat", "zone2-change", "all-zones-change", "timer-change", "timer-repeat",
           "errtext-change", "version-change", "version-repeat", "sub-twice", "unsub-twins", "raise-on", "raise-others", "oneshot-on",
-          "unsub-one-of-both", "cmd-set-timer", "cmd-clear-timer", "cmd-ac0-mode"]
+          "unsub-one-of-both", "cmd-set-timer", "cmd-clear-timer", "cmd-ac0-mode",
+          "errtext-repeat", "ac0-error-on", "mute-error-replies"]
+# deeper histories over small families of events that belong together (error code / error text; timers)
+FAMILIES = {"error": ["ac0-error-on", "errtext-change", "errtext-repeat", "ac0-repeat", "mute-error-replies"],
+            "timer": ["timer-change", "timer-repeat", "cmd-set-timer", "cmd-clear-timer", "ac0-repeat"]}
 
 
 def apply_event(h, ev, k):
@@ -117,6 +121,24 @@ def apply_event(h, ev, k):
     if ev == "errtext-change":
         c.state["error"][0] = f"ER: {k:02d}"
         return [c.error_frame(0)]
+    if ev == "mute-error-replies":
+        # from now on the console leaves error-information requests unanswered (lost answers): what the client knows
+        # about the text is what earlier frames told it
+        def hook(kind, fr, answers):
+            return [] if kind == "req-error" else answers
+        c.answer_hook = hook
+        return []
+    if ev == "errtext-repeat":
+        # (a console repeats its error text only for an air-conditioner that is reporting an error: the text of an
+        # AC without error code is not exposed, and what the client remembers of it is its own business)
+        if not c.state["ac"][0]["error"] or not c.state["error"].get(0):
+            return []
+        return [c.error_frame(0)]
+    if ev == "ac0-error-on":
+        st = c.state["ac"][0]
+        st["error"] = 3
+        st["temperature"] = 20.0 + k / 2       # the code stays, another field moves
+        return [c.ac_status_frame(only=[0])]
     if ev == "version-change":
         h.w.inst["update"] = not h.w.inst["update"]
         return [c.version_frame()]
@@ -267,8 +289,12 @@ def run(tier, seed, part=None):
     n = 0
     outcomes = set()
     for gen in (4, 5):
-        seqs = [s for d in range(1, depth + 1) for s in itertools.product(range(len(EVENTS)), repeat=d)]
+        core = [i for i, e in enumerate(EVENTS) if e not in ("errtext-repeat", "ac0-error-on", "mute-error-replies")]
+        seqs = [s for d in range(1, depth + 1) for s in itertools.product(core, repeat=d)]
         jobs = [(gen, order, s) for order in ("fwd", "rev", "fwd-susp2", "rev-susp1") for s in seqs]
+        for fam in FAMILIES.values():
+            idx = [EVENTS.index(e) for e in fam]
+            jobs += [(gen, "fwd", s) for d in (depth + 1, depth + 2) for s in itertools.product(idx, repeat=d)]
         res = explorer.pool().map(run_history, jobs, chunksize=32)
         for job, (sig, msg) in zip(jobs, res):
             n += len(job[2])
